@@ -75,10 +75,28 @@ Fixpoint multi_hex (w : nat) (parts : list text) : res (list N) :=
 
 Definition END_t : text := [69; 78; 68].
 
+(* every rendered element must have exactly w digits (F29) *)
+Fixpoint multi_fits (w : nat) (parts : list text) : bool :=
+  match parts with
+  | [] => true
+  | p :: r =>
+      match p with
+      | [] => multi_fits w r
+      | _ => match num_of_text p None MNone with
+             | Ok n => match num_hex n w with Some h => Nat.eqb (length h) w && multi_fits w r | None => true end
+             | _ => true
+             end
+      end
+  end.
+
+Definition multi_value (w : nat) (s : text) : res value :=
+  do h <- multi_hex w (split_on 44 s);
+  if multi_fits w (split_on 44 s) then Ok (VMulti h) else VTE.
+
 Definition pseudo_operand (s : text) (i : irow) : res operand :=
-  do v <- (if Tables.is_multi_byte i && mem_c 44 s then do h <- multi_hex 2 (split_on 44 s); Ok (VMulti h)
+  do v <- (if Tables.is_multi_byte i && mem_c 44 s then multi_value 2 s
            else if Tables.is_multi_word i && negb (Tables.is_multi_byte i) && mem_c 44 s
-                then do h <- multi_hex 4 (split_on 44 s); Ok (VMulti h)
+                then multi_value 4 s
            else if negb (Tables.is_multi_byte i) && negb (Tables.is_multi_word i) &&
                    (Tables.is_include i || (text_eqb (mnem i) END_t && Nat.eqb (length s) 0)) then Ok VNone
            else create_value s i true);
@@ -150,6 +168,7 @@ Definition resolve_operand (o : operand) (i : irow) (tb : symtab) : res operand 
       | VPyNone => Diag 24
       | _ =>
         let fits_direct := v_is_direct v' && (v_int v' <? 256) && negb (v_negative v') in
+        let fits_direct := fits_direct && negb (mode_eqb (v_mode v) MExplExtended) in
         if v_is_numeric v' && (fits_direct || mode_eqb (v_mode v) MExplDirect) then Ok (ODirect v')
         else Ok (OExtended v')
       end
@@ -224,10 +243,10 @@ Definition translate_pseudo (v : value) (i : irow) : res codepkg :=
   let m := mnem i in
   if text_eqb m FCB_t then
     if v_is_multi v then Ok (data_pkg v (v_byte_len v))
-    else do a <- numv_h (v_int v) 2; Ok (data_pkg a 1)
+    else match v with VPyNone => Diag 24 | _ => do a <- fit_value v 2 true; Ok (data_pkg a 1) end
   else if text_eqb m FDB_t then
     if v_is_multi v then Ok (data_pkg v (v_byte_len v))
-    else do a <- numv_h (v_int v) 4; Ok (data_pkg a 2)
+    else match v with VPyNone => Diag 24 | _ => do a <- fit_value v 4 true; Ok (data_pkg a 2) end
   else if text_eqb m RMB_t then
     do a <- numv_h 0 (v_int v * 2); Ok (data_pkg a (v_int v))
   else if text_eqb m ORG_t then
@@ -240,10 +259,10 @@ Definition translate_pseudo (v : value) (i : irow) : res codepkg :=
 Definition reg_bits (r : text) : N :=
   N.lor (N.lor (if contains t_Y r then 32 else 0) (if contains t_U r then 64 else 0)) (if contains t_S r then 96 else 0).
 
-Definition left_is_empty_or_zero (l : side) : bool :=
+Definition left_is_empty_or_zero (l : side) (r : text) : bool :=
   match l with
   | LStr t => Nat.eqb (length t) 0
-  | LVal v => v_is_numeric v && (v_int v =? 0)
+  | LVal v => v_is_numeric v && (v_int v =? 0) && negb (contains [80; 67; 82] r)
   end.
 Definition left_abd (l : side) : option text := match l with LStr t => if is_abd t then Some t else None | _ => None end.
 
@@ -263,7 +282,7 @@ Definition translate_indexed (indirect : bool) (l : side) (r : text) (i : irow) 
   let ib := if indirect then 16 else 0 in              (* the indirect bit *)
   let raw0 := N.lor (if indirect then 128 else 0) (reg_bits r) in
   let pm := mem_c 43 r || mem_c 45 r in
-  if left_is_empty_or_zero l then
+  if left_is_empty_or_zero l r then
     if indirect then
       if pm then
         if existsb (text_eqb r) [[88;43]; [89;43]; [85;43]; [83;43]; [45;88]; [45;89]; [45;85]; [45;83]] then OTE
@@ -291,9 +310,10 @@ Definition translate_indexed (indirect : bool) (l : side) (r : text) (i : irow) 
         if contains t_PCR r then
           if needs then mk_idx_pkg opc raw0 [N.lor 140 ib; N.lor 141 ib] lv sz (sz + 2) true
           else
-            let e := v_is_extended lv in
-            let size := sz + (if e then 2 else 1) in
-            mk_idx_pkg opc (N.lor raw0 (N.lor (if e then 141 else 140) ib)) [] lv size size needs
+            let wide := negb (v_is_8_bit lv && negb (v_is_extended lv)) in
+            do a <- fit_value lv (if wide then 4 else 2) true;
+            let size := sz + (if wide then 2 else 1) in
+            mk_idx_pkg opc (N.lor raw0 (N.lor (if wide then 141 else 140) ib)) [] a size size needs
         else
           match lv with
           | VNum n =>
